@@ -139,6 +139,21 @@ func c01Body(sc *WF) Verdict {
 			return bad("C01:no-callbacks", "run invoked no callback at all (action=%q err=%v)", rr.Action, rr.Err)
 		}
 		rootIsLeaf := sc.Nodes[sc.Root].Leaf != nil
+		if rr.Err == nil {
+			// Behavioural form of "the very store given to the run" for nodes inside flows: every post
+			// of this run appended its leaf to the "path" key of the store it was handed; after a
+			// successful run the caller's store must hold exactly this run's path (a working copy
+			// published back is fine, a store remembered from an earlier run is not).
+			var want []int
+			for _, e := range tr {
+				if e.Phase == "post" {
+					want = append(want, e.Leaf)
+				}
+			}
+			if got := storePath(rr.Store); !intsEq(got, want) {
+				return bad("C01:store-of-this-run", "run %d: the posts of this run recorded %v in the store they were handed, the store given to the run holds %v", r, want, got)
+			}
+		}
 		if rootIsLeaf && len(segs) != 1 {
 			return bad("C01:prep-count", "single node run shows %d prep calls: %v", len(segs), traceStrings(tr))
 		}
